@@ -17,6 +17,12 @@ PRELUDE = [
     "(define (poke! v i x) (vector-set! v i x))",
     "(define (mk-poker v) (lambda (i x) (vector-set! v i x)))",
     "(define (mk-reader v) (lambda (i) (vector-ref v i)))",
+    # builders whose closures capture the frame of one iteration of a loop (created in the operands of a tail call)
+    "(define (mk-counters n acc) (if (= n 0) acc (mk-counters (- n 1) (cons (lambda () (set! n (+ n 1)) n) acc))))",
+    "(define (mk-counters-a n acc) (if (= n 0) acc (mk-counters-b (- n 1) (cons (lambda () (set! n (+ n 1)) n) acc))))",
+    "(define (mk-counters-b n acc) (if (= n 0) acc (mk-counters-a (- n 1) (cons (lambda () (set! n (+ n 1)) n) acc))))",
+    "(define (mk-counters-nt n) (if (= n 0) '() (cons (lambda () (set! n (+ n 1)) n) (mk-counters-nt (- n 1)))))",
+    "(define (mk-cells k v acc) (if (= k 0) acc (mk-cells (- k 1) (make-vector 1 k) (cons (lambda () v) acc))))",
     "(define g 0)",
     "(define (bump-g!) (set! g (+ g 1)) g)",
     "(define (shadow-g) (let ((g 100)) (set! g (+ g 1)) g))",
@@ -52,7 +58,7 @@ class Sim:
 
     def step(self):
         r = self.rng
-        ops = ["counter-new", "pair-new", "vec-new", "bump"]
+        ops = ["counter-new", "pair-new", "vec-new", "bump", "counters-batch", "cells-batch"]
         if self.counters: ops += ["counter-call"] * 3
         if len(self.counters) >= 2: ops += ["counter-assign"] * 2
         if len(self.vecs) >= 2: ops += ["vec-assign"] * 3
@@ -65,6 +71,25 @@ class Sim:
         op = r.choice(ops)
         if op == "counter-new":
             n = self.fresh("c"); self.counters[n] = [0]; self.emit("(define %s (mk-counter))" % n, "N")
+        elif op == "counters-batch":
+            k = r.randrange(2, 5); L = self.fresh("b")
+            which = r.choice(["mk-counters %d '()", "mk-counters-a %d '()", "mk-counters-nt %d"])
+            self.emit("(define %s (%s))" % (L, which % k), "N")
+            for j in r.sample(range(k), r.randrange(2, k + 1)):
+                n = self.fresh("c")
+                self.counters[n] = [k - j if which.startswith("mk-counters-nt") else j + 1]
+                self.emit("(define %s (list-ref %s %d))" % (n, L, j), "N")
+        elif op == "cells-batch":
+            k = r.randrange(2, 5); L = self.fresh("b")
+            if self.vecs and r.random() < 0.6:
+                a = r.choice(list(self.vecs)); first, arg = self.vecs[a], a
+            else:
+                first, arg = [0], "(vector 0)"
+            self.emit("(define %s (mk-cells %d %s '()))" % (L, k, arg), "N")
+            for j in range(k):
+                n = self.fresh("w")
+                self.vecs[n] = first if j + 1 == k else [j + 2]
+                self.emit("(define %s ((list-ref %s %d)))" % (n, L, j), "N")
         elif op == "counter-call":
             n = r.choice(list(self.counters)); self.counters[n][0] += 1
             self.emit("(%s)" % n, "V i:%d" % self.counters[n][0])
@@ -195,7 +220,8 @@ def run(rep, tier, rng):
 def main(tier, seed):
     rep = C.Report(PROP, tier, seed)
     rng = random.Random(seed)
-    rep.cov["rule"] = ("random histories of 10-60 operations over counters from generator procedures, closure pairs sharing "
+    rep.cov["rule"] = ("random histories of 10-60 operations over counters from generator procedures and from loops (self tail call, mutual "
+                       "tail calls, non-tail recursion) whose closures capture one iteration's frame, closure pairs sharing "
                        "one binding, a global and a shadowing local, vectors aliased through variables, arguments, list "
                        "elements, vector elements and captured references, literal-vector mutation attempts; distinct = "
                        "distinct histories")
